@@ -34,11 +34,13 @@ MANIFEST = {
             'archive_match.c decision logic): exclusion_wins, inclusion_decides, directory_pattern_covers_children, '
             'unmatched_count_invariant and marks_after_query over every history of API calls, time_excluded_lex / file_rejects_lex '
             '(lexicographic (sec,nsec) order with the EQUAL bit, ctime falling back to mtime), owner_excluded_spec (binary search over '
-            'the sorted id array = membership, for every history), excluded_is_disjunction. '
+            'the sorted id array = membership, for every history), excluded_is_disjunction, excludeEntry_last_wins / '
+            'excludeEntry_others_kept (re-registering a pathname with archive_match_exclude_entry replaces the flag and all four '
+            'time fields of its record and touches no other record). '
             'DIFFERENTIALLY CHECKED ONLY (no theorem): that the models are the C - engine pm runs __archive_pathmatch/_w, pm/pm_w, pm_list/_w, '
             'pm_slashskip/_w with both strings ending at a PROT_NONE page and again on exact-size heap copies under ASan/UBSan, engine match '
             'runs the real archive_match_* API (narrow and _w setters, path/time/owner/all verdicts, unmatched_inclusions and its _next '
-            'iterator, exclude_entry records) against the models on random structured cases over the alphabet * ? [ ] ! ^ - \\ / . $ a b '
+            'iterator, exclude_entry records incl. a systematic re-registration family) against the models on random structured cases over the alphabet * ? [ ] ! ^ - \\ / . $ a b '
             '(to length 12+), the 159 assertions of the upstream unit test, and in the thorough tier an exhaustive enumeration of all '
             'patterns <= 5 over 9 symbols x all pathnames <= 3 x 4 flag sets x both variants and all patterns <= 4 over the 13-symbol '
             'alphabet x all pathnames <= 3 (1.0e9 evaluations, digests compared). A full declarative specification of classes, / '
